@@ -55,6 +55,7 @@ type Scenario struct {
 	Windows   bool   `json:"windows"` // ServeDNS (AddSample, sliding windows) instead of ServeDNSWithRCODE
 	Cache     bool   `json:"cache"`
 	Update    bool   `json:"update"` // write to the RocksDB primary between partial reloads
+	NoStats   bool   `json:"no_stats"`
 	Seed      uint64 `json:"seed"`
 }
 
@@ -359,7 +360,7 @@ func runChild(sc Scenario, pjson string) {
 	aux.Add(1)
 	go func() {
 		defer aux.Done()
-		for atomic.LoadInt32(&stopAux) == 0 {
+		for atomic.LoadInt32(&stopAux) == 0 && !sc.NoStats {
 			h.ReportBackendStats()
 			_ = st.Get()
 			time.Sleep(500 * time.Microsecond)
